@@ -101,7 +101,7 @@ func (vc *VC) arith(op token.Token, a, b Term, ii IntInfo, bi IntInfo) Term {
 			}
 		}
 	}
-	panic(fmt.Sprintf("operator %s not supported in mode %s", op, vc.mode))
+	panic(unsupported{fmt.Sprintf("operator %s not supported in mode %s", op, vc.mode), token.NoPos})
 }
 
 func mathIntBig(v *big.Int) Term { return intLit("int", IntInfo{64, true}, v) }
